@@ -36,8 +36,15 @@ def float_end_to_end(chk: Check, n):
         xt = rng.normal(loc * rng.uniform(0.8, 1.3), rng.uniform(0.2, 3), nt)
         data = pa.table({"variant": [0] * nc + [1] * nt, "x": np.concatenate([xc, xt])})
         try:
-            res = tt.Experiment(m=tt.Mean("x", alternative=alt, equal_var=ev, use_t=ut, confidence_level=cl)
-                                ).analyze(data)["m"]
+            if k % 2:
+                # explicit options must win over whatever the global configuration says at construction time
+                other = dict(alternative=[a for a in ("two-sided", "greater", "less") if a != alt][k % 2],
+                             equal_var=not ev, use_t=not ut, confidence_level=0.5 if cl != 0.5 else 0.9)
+                with tt.config_context(**other):
+                    metric = tt.Mean("x", alternative=alt, equal_var=ev, use_t=ut, confidence_level=cl)
+            else:
+                metric = tt.Mean("x", alternative=alt, equal_var=ev, use_t=ut, confidence_level=cl)
+            res = tt.Experiment(m=metric).analyze(data)["m"]
         except Exception as ex:  # noqa: BLE001
             chk.fail("Experiment.analyze raised on plain float data", dict(cell=[alt, ev, ut], error=repr(ex)))
             continue
@@ -104,6 +111,7 @@ def main():
     if chk.tier == "thorough":
         run_cases(chk, build(chk, 120), family=2, with_gen=have_model, label="[family 2] ")
     float_end_to_end(chk, 36 if chk.tier == "quick" else 600)
+    analysis.float_far_tail(chk, 12 if chk.tier == "quick" else 120, clauses=("textbook",))
     chk.cov["rule"] = ("random rational samples (2..28 per variant, balanced and 1:many), all 12 option cells x "
                        "random confidence levels, exact vs Lean spec/model; plus float end-to-end runs vs scipy")
     chk.cov["proved"] = proved
